@@ -31,23 +31,27 @@ class UnitIndex:
 
 def unit_of_message(prog, msg):
     """which unit of the program a diagnostic talks about (by the names it mentions)"""
-    m = re.search(r"\bInit(\d+)\b", msg)
+    m = re.search(r"\bInit(\d+b?)\b", msg)
     if m:
-        return int(m.group(1))
+        return m.group(1)          # injector key: "3" or "3b" (twin)
     for u in prog.units:
         for st in u.structs:
             if "%s.%s" % (prog.path(st["pkg"]), st["name"]) in msg:
-                return u.uid
+                return str(u.uid) + "?"
         for d in u.ifaces:
             if "%s.%s" % (prog.path(d["pkg"]), d["name"]) in msg:
-                return u.uid
+                return str(u.uid) + "?"
     m = re.search(r"\bProv(\d+)\b", msg)
     if m:
-        return int(m.group(1)) // 1000
+        return str(int(m.group(1)) // 1000) + "?"
     m = re.search(r"\bSet(\d+)\b", msg)
     if m:
-        return int(m.group(1)) // 100
+        return str(int(m.group(1)) // 100) + "?"
     return None
+
+
+def unit_key(u):
+    return u.inj["name"][len("Init"):]
 
 
 def classify(ix, msg):
